@@ -20,7 +20,7 @@ META = {
 }
 
 TSER = "common::TaggedCborSerializable"
-TRY_ARRAY = "<ciborium::Value as util::ValueTryAs>::try_as_array"
+TRY_ARRAY = "<ciborium::value::Value as util::ValueTryAs>::try_as_array"
 
 
 def check(ctx):
@@ -77,7 +77,7 @@ def check(ctx):
         f = prog.fn(key)
         pv = Prov(f)
         # the `?` on try_as_array(arg0) must dominate every Ok exit
-        trys = [(bb, t) for bb, t in f.calls() if (t.get("callee") or {}).get("path") == "core::ops::Try::branch"]
+        trys = [(bb, t) for bb, t in f.calls() if (t.get("callee") or {}).get("path") == "core::ops::try_trait::Try::branch"]
         gate = None
         for bb, t in trys:
             op = pv.operand_term(t["args"][0], bb, "term")
